@@ -413,7 +413,10 @@ def packHeader(name, *values):
     values = list(values)  # make copy
     for i, value in enumerate(values):
         if isinstance(value, str):
-            values[i] = value.encode('iso-8859-1')
+            try:
+                values[i] = value.encode('iso-8859-1')
+            except UnicodeEncodeError:  # e.g. Last-Event-ID from UTF-8 event stream id
+                values[i] = value.encode('utf-8')
         elif isinstance(value, int):
             values[i] = str(value).encode('ascii')
     value = b', '.join(values)
